@@ -563,7 +563,9 @@ def _make_init(cls: t.Type[PaneBase], fields: t.Sequence[Field]):
         if from_dict is not None:
             for (k, v) in from_dict.items():
                 object.__setattr__(self, k, v)
-            object.__setattr__(self, PANE_SET_FIELDS, set(from_dict.keys()))
+            # (the record of set fields must be in place before __post_init__ gets to look at it)
+            set_fields = kwargs.pop('_pane_set_fields', None)
+            object.__setattr__(self, PANE_SET_FIELDS, set(from_dict.keys()) if set_fields is None else set(set_fields))
             if hasattr(self, POST_INIT):
                 getattr(self, POST_INIT)()
             return
@@ -611,10 +613,7 @@ def _make_init(cls: t.Type[PaneBase], fields: t.Sequence[Field]):
 
     @classmethod
     def from_dict_unchecked(cls: t.Type[PaneBase], d: t.Dict[str, t.Any], *, set_fields: t.Optional[t.Set[str]] = None) -> PaneBase:
-        self = cls(_pane_from_dict=d)  # type: ignore
-        if set_fields is not None:
-            object.__setattr__(self, PANE_SET_FIELDS, set_fields.copy())
-        return self
+        return cls(_pane_from_dict=d, _pane_set_fields=set_fields)  # type: ignore
 
     sig2 = Signature([
         Parameter('cls', Parameter.POSITIONAL_OR_KEYWORD),
